@@ -57,7 +57,7 @@ class C13(Prop):
             "reading; they are cancelled afterwards and must end too (lock-order and registry contention). "
             "WebSocket clause: (SendTimeout, PingDuration) from "
             "{100,300} ms x {0,20,1000} ms, 3 configurations in the quick tier (incl. ping disabled), all 6 in the thorough "
-            "tier, plus the corpus. Model side: the theorems predict 'terminates and releases everything' for every case of "
+            "tier, plus two configurations with a receive rate limit (0.1/s, burst 2) that the client has used up, plus the corpus. Model side: the theorems predict 'terminates and releases everything' for every case of "
             "a well-formed composition, so model agreement on session cases = oracle acceptance (stated in Check/C13Check.v); "
             "on WebSocket cases the model's prediction is the guard generated from relay.go. distinct = distinct "
             "(composition, stack, history shape, ending, peer, settle)")
@@ -110,7 +110,7 @@ class C13(Prop):
 
     def _shape(self, c):
         if c["k"] == "ws":
-            return ["ws", c["st_ms"], c["ping_ms"]]
+            return ["ws", c["st_ms"], c["ping_ms"], bool(c.get("slow"))]
         return [c["comp"], c["mw"], [m["t"] for m in c.get("hist") or []], c["end"], c["peer"], bool(c.get("settle")),
                 c.get("companion", 0), c.get("store") or "", bool(c.get("pool1"))]
 
